@@ -214,6 +214,16 @@ def run(chk):
     # whole-document evaluation first: what it finds is definite whatever shape the per-expression rules below expect
     from .jsonfile import log_rule
     log_rule(chk, 'C12.R6')
+    try:
+        per_expression(chk, repo)
+    except AnalysisError as e:
+        if chk.findings:
+            raise
+        chk.note(f'per-expression rules not evaluated completely ({e.rule} at {e.anchor}: {e.why[:200]}); the verdict rests on the whole-document rule C12.R6 '
+                 f'(writer -> JSON document -> reader on board sequences) and the rules evaluated before')
+
+
+def per_expression(chk, repo):
     schemas = load_schemas(repo, 'C12.R1')
     # ---- R1 -----------------------------------------------------------------------------------------------------
     rec = WriterRecord(repo, 'JsonLogWriter', 'C12.R1', chk=chk)
